@@ -67,7 +67,7 @@ def outcome(fn, *a, **k):
         return ('crash', type(e).__name__, str(e)[:80])
 
 
-HEAD = 'from typing import List, Dict, Optional, Union, Tuple, Iterator\nimport utype\nfrom utype import Schema, Field, Options\n'
+HEAD = 'from typing import List, Dict, Optional, Union, Tuple, Iterator, AsyncIterator\nimport utype\nfrom utype import Schema, Field, Options\n'
 FUTURE = 'from __future__ import annotations\n'
 
 # ------------------------------------------------------------------ system: name defined later (B after A)
@@ -304,6 +304,11 @@ def gi@@(x) -> Iterator['Pos@@']:
     yield x
 
 
+@utype.parse
+async def ga@@(x) -> 'AsyncIterator[Pos@@]':
+    yield x
+
+
 class C@@(Schema):
     p: 'Pos@@' = Field(le=10)
     q: 'Pos@@' = Field(le=5, default=1)
@@ -372,6 +377,11 @@ def gi@@(x) -> Iterator[Pos@@]:
     yield x
 
 
+@utype.parse
+async def ga@@(x) -> AsyncIterator[Pos@@]:
+    yield x
+
+
 def make@@():
     class Local2(Schema):
         v: int = Field(ge=0, default=0)
@@ -408,11 +418,26 @@ def _misc(V, target):
             V.check(r1 == r2, 'forward:differs:constrained-field', lambda: 'C(**%r): forward %r ; direct %r' % (d, r1, r2))
         elif target == 'return-only':
             x = num(V, 'x')
-            fn = V.pick('fn', ['rf', 'rl', 'gw', 'gi'])
+            fn = V.pick('fn', ['rf', 'rl', 'gw', 'gi', 'ga'])
             out = []
             for mod, n in ((fwd, n1), (direct, n2)):
                 f = getattr(mod, fn + str(n))
-                if fn in ('gw', 'gi'):
+                if fn == 'ga':
+                    def drain(x=x, f=f):
+                        ag = f(x)
+                        items = []
+                        while True:
+                            co = ag.__anext__()
+                            try:
+                                co.send(None)
+                            except StopIteration as e:
+                                items.append(e.value)
+                            except StopAsyncIteration:
+                                return items
+                            else:
+                                raise RuntimeError('async generator suspended')
+                    out.append([outcome(drain), outcome(drain)])
+                elif fn in ('gw', 'gi'):
                     # generators: the whole annotation as one string ('Iterator[Pos]') or the argument only (Iterator['Pos'])
                     out.append([outcome(lambda: list(f(x))), outcome(lambda: list(f(x)))])
                 else:
@@ -875,3 +900,74 @@ def class_factory(V):
         V.cover(which)
     finally:
         unload(fwd, direct)
+
+
+# ------------------------------------------------------------------ the same names in two modules (typing shares one ForwardRef per spelling)
+TWO_SRC = '''
+from typing import List, Optional, Dict
+from utype import Schema, Field
+
+
+class Holder(Schema):
+    things: List['Thing'] = Field(default_factory=list)
+    one: Optional['Thing'] = None
+    by: Dict[str, 'Thing'] = Field(default_factory=dict)
+
+
+class Thing(Schema):
+    v: %s
+'''
+
+
+TWO_DRIVER = '''
+import sys, types as pytypes
+sys.path.insert(0, %(repo)r)
+SRC = %(src)r
+def load(name, t):
+    m = pytypes.ModuleType(name); sys.modules[name] = m
+    exec(compile(SRC %% t, name + '.py', 'exec'), m.__dict__); return m
+order, first, field, raw = %(order)r, %(first)r, %(field)r, %(raw)r
+second = 'str' if first == 'int' else 'int'
+d = {'things': {'things': [{'v': raw}]}, 'one': {'one': {'v': raw}}, 'by': {'by': {'k': {'v': raw}}}}[field]
+mods = {}
+def use(kind):
+    h = mods[kind].Holder(**d)
+    t = h.things[0] if field == 'things' else h.one if field == 'one' else h.by['k']
+    return (type(t).__module__ == 'two_' + kind, t.v)
+mods[first] = load('two_' + first, first)
+if order == 'declare-declare-use':
+    mods[second] = load('two_' + second, second)
+out = [use(first)]
+if order == 'declare-use-declare':
+    mods[second] = load('two_' + second, second)
+out.append(use(second)); out.append(use(first))
+print(repr(out))
+'''
+
+
+@ob('same-names-two-modules', marks=['done'], budget=(60, 200),
+    bounds="two modules declare Holder (List['Thing'], Optional['Thing'], Dict[str, 'Thing']) and their own Thing (v: int in one, v: str "
+           'in the other) under the same names; solver-picked: both modules are declared before either is used, or the second is declared '
+           'after the first was used; which module is used first; the field carrying the value ("7" / 8): each Holder converts with the '
+           'Thing of its own module, in every order. Each path runs in a fresh interpreter (typing caches one ForwardRef per spelling '
+           'for the whole process, so paths of one process would not be independent)')
+def same_names_two_modules(V):
+    import ast
+    import os
+    import subprocess
+    order = V.pick('order', ['declare-declare-use', 'declare-use-declare'])
+    first = V.pick('first_used', ['int', 'str'])
+    field = V.pick('field', ['things', 'one', 'by'])
+    raw = V.pick('raw', ['7', 8])
+    with V.notrace():
+        code = TWO_DRIVER % dict(repo=os.environ.get('UTYPE_REPO', '/repo'), src=TWO_SRC, order=order, first=first, field=field, raw=raw)
+        p = subprocess.run([sys.executable, '-c', code], stdout=subprocess.PIPE, stderr=subprocess.PIPE, timeout=60)
+        try:
+            out = ast.literal_eval(p.stdout.decode().strip().splitlines()[-1])
+        except Exception:  # noqa
+            out = ('crash', p.stderr.decode()[-300:])
+    second = 'str' if first == 'int' else 'int'
+    want = {'int': (True, int(raw)), 'str': (True, str(raw))}
+    V.check(out == [want[first], want[second], want[first]], 'forward:differs:same-names-two-modules:' + order,
+            lambda: '%s, first used %s, field %s, value %r: (own class?, value) for first / second / first again: %r' % (order, first, field, raw, out))
+    V.cover('done')
